@@ -620,6 +620,21 @@ fn c20_program(rng: &mut Rng) -> (String, Vec<String>) {
     if rng.pct(40) {
         rng.shuffle(&mut order);
     }
+    // a third of the programs start with a non-tail conditional (or match): the rest of main is
+    // then a shared continuation that the translation lifts to a definition of its own, and main
+    // must still be the routine that receives the arguments
+    let mut prelude = String::new();
+    let mut shared = false;
+    if rng.pct(33) {
+        shared = true;
+        let c = if k > 0 { names[rng.below(k)].clone() } else { "0".to_string() };
+        if rng.pct(50) {
+            body.push_str(&format!("  let r0: i64 = (if ({c}) == 0 {{ 1 }} else {{ 2 }});\n"));
+        } else {
+            prelude.push_str("data Flag { Off, On }\n");
+            body.push_str(&format!("  let f0: Flag = (if ({c}) < 0 {{ Off }} else {{ On }});\n  let r0: i64 = (f0).case {{ Off => 1, On => 2 }};\n"));
+        }
+    }
     for i in &order {
         body.push_str(&format!("  {}({});\n", if rng.pct(50) { "println_i64" } else { "print_i64" }, names[*i]));
         if rng.pct(50) {
@@ -631,7 +646,10 @@ fn c20_program(rng: &mut Rng) -> (String, Vec<String>) {
         1 => fungen_lit(boundary(rng)),
         _ => rng.range(0, 1000).to_string(),
     };
-    let src = format!("def main({params}): i64 {{\n{body}  {ret}\n}}\n");
+    if shared {
+        body.push_str("  print_i64(r0);\n");
+    }
+    let src = format!("{prelude}def main({params}): i64 {{\n{body}  {ret}\n}}\n");
     // decimal renderings: canonical, with leading zeros, with an explicit plus sign
     let argv = (0..k)
         .map(|_| {
@@ -771,13 +789,14 @@ pub fn driver_history(rng: &mut Rng, tag: &str) -> Result<(u64, Option<String>),
     std::fs::create_dir_all(&dir).map_err(|e| e.to_string())?;
     let old = std::env::current_dir().map_err(|e| e.to_string())?;
     std::env::set_current_dir(&dir).map_err(|e| e.to_string())?;
-    let heaps = [None, Some(8usize), Some(64usize)];
+    // (3000 MiB does not fit 32-bit arithmetic; the allocation itself is behind the seam)
+    let heaps = [None, Some(8usize), Some(64usize), Some(3000usize)];
     let mut bad = None;
     let steps = 3 + rng.below(5) as u64;
     let mut hist = Vec::new();
     for _ in 0..steps {
         let k = rng.below(6);
-        let h = heaps[rng.below(3)];
+        let h = heaps[rng.below(4)];
         hist.push(format!("({k}, {h:?})"));
         let path = driver::generate_c_driver(k, h);
         let text = std::fs::read_to_string(&path).unwrap_or_default();
